@@ -576,6 +576,80 @@ def eval_class_construct(case):
     return out, "accepted"
 
 
+def eval_range_edge(case):
+    """An explicit change to an integer type at the very edge of its range: max is accepted, max + 1 (the first float that does not
+    fit - iinfo.max itself is not representable in narrower floats) and min - 1 are refused, nothing changes."""
+    from physt.types import Histogram1D, Histogram2D
+
+    src, tgt, which, via = case["src"], case["tgt"], case["value"], case["via"]
+    info = np.iinfo(np.dtype(tgt))
+    exact = {"max": int(info.max), "max_plus_1": int(info.max) + 1, "min_minus_1": int(info.min) - 1, "half_max": int(info.max) // 2 + 1}[which]
+    sdt = np.dtype(src)
+    with np.errstate(over="ignore"):
+        try:
+            stored = sdt.type(exact)
+        except OverflowError:
+            return [], "not_representable"
+    if not np.isfinite(float(stored)) or int(stored) != exact:
+        return [], "not_representable"  # this source type cannot hold the value exactly: nothing to decide
+    fits = info.min <= exact <= info.max
+    negative = exact < 0
+    if negative:
+        return [], "negative"  # contents cannot be negative: the low edge is only reachable through free arithmetics
+    arr = np.array([stored, sdt.type(1), sdt.type(0)], dtype=sdt)
+    out = []
+    sig = f"range_edge|{via}|{which}|to={tgt}"
+    if via == "set_dtype":
+        h = Histogram1D(EDGES.copy(), arr.copy(), errors2=np.array([1, 1, 0], dtype=sdt), dtype=sdt)
+        before = snap(h, meta=False, stats=False)
+        res = call(h.set_dtype, tgt)
+        after_h = h
+    elif via == "dtype_setter":
+        h = Histogram2D([np.array([0.0, 1.0, 2.0]), np.array([0.0, 1.0, 2.0])], np.array([[stored, 1], [0, 0]], dtype=sdt), errors2=np.array([[1, 1], [0, 0]], dtype=sdt), dtype=sdt)
+        before = snap(h, meta=False, stats=False)
+        res = call(lambda: setattr(h, "dtype", tgt))
+        after_h = h
+    else:
+        before = None
+        res = call(lambda: Histogram1D(EDGES.copy(), arr.copy(), errors2=np.array([1, 1, 0], dtype=sdt), dtype=np.dtype(tgt)))
+        after_h = res.value if res.ok else None
+    if fits:
+        if not res.ok:
+            out.append(V("must_succeed", f"{sig}|refused|{exc_sig(res.exc)}", case, "accepted (the value fits)", res.describe()))
+        elif int(np.asarray(after_h.frequencies).ravel()[0]) != exact or np.dtype(after_h.dtype) != np.dtype(tgt):
+            out.append(V("values_frequencies", f"{sig}|value_changed", case, exact, [str(after_h.dtype), np.asarray(after_h.frequencies).ravel().tolist()]))
+        return out, "fits"
+    if res.ok:
+        out.append(V("must_raise", f"{sig}|accepted", case, "refused: the value is outside the type's range", [str(after_h.dtype), np.asarray(after_h.frequencies).ravel().tolist()]))
+    elif before is not None and snap(h, meta=False, stats=False) != before:
+        out.append(V("refused_unchanged", f"{sig}|refused_but_changed", case, before, snap(h, meta=False, stats=False)))
+    return out, "outside"
+
+
+def eval_accumulate(case):
+    """accumulate(): the reported dtype is the element type of both arrays and the running sums are not wrapped."""
+    from physt.types import Histogram2D
+
+    dt = np.dtype(case["dtype"])
+    vals = np.array(case["values"], dtype=dt).reshape(2, 2)
+    h = Histogram2D([np.array([0.0, 1.0, 2.0]), np.array([0.0, 1.0, 2.0])], vals, dtype=dt)
+    out = []
+    for axis in (0, 1):
+        res = call(h.accumulate, axis)
+        sig = f"accumulate|{kind_of(dt)}{dt.itemsize * 8}"
+        if not res.ok:
+            out.append(V("must_succeed", f"{sig}|{exc_sig(res.exc)}", case, "cumulative histogram", res.describe()))
+            continue
+        r = res.value
+        rdt = np.dtype(r.dtype)
+        if r.frequencies.dtype != rdt or r.errors2.dtype != rdt:
+            out.append(V("dtype_consistency", f"{sig}|dtype_consistency", case, str(rdt), [str(r.frequencies.dtype), str(r.errors2.dtype)]))
+        want = np.cumsum(np.array(case["values"], dtype=object).reshape(2, 2), axis=axis).astype(float)
+        if np.asarray(r.frequencies, dtype=float).tolist() != want.tolist():
+            out.append(V("values_frequencies", f"{sig}|values", case, want.tolist(), np.asarray(r.frequencies).tolist()))
+    return out
+
+
 def eval_adaptive_mixed(case):
     """a + b / a += b for adaptive fixed-width histograms of every dtype pair whose bins differ (both get re-binned)."""
     from physt import h1, h2
@@ -635,6 +709,7 @@ def units(tier, seed):
     us.append({"kind": "construct"})
     us.append({"kind": "adaptive_mixed"})
     us.append({"kind": "class_construct"})
+    us.append({"kind": "range_edge"})
     return us
 
 
@@ -647,6 +722,28 @@ def run_unit(unit, ctx):
         for k in seen:
             p.outcome(k[0])
         p.sample({"config": unit["config"], "a_state_history": H.listify(list(seen.values())[-1][3])})
+    elif unit["kind"] == "range_edge":
+        for src in ("float16", "float32", "float64", "float128", "int64", "int32"):
+            for tgt in ("int16", "int32", "int64"):
+                for which in ("max", "max_plus_1", "min_minus_1", "half_max"):
+                    for via in ("set_dtype", "dtype_setter", "constructor"):
+                        case = {"range_edge": True, "src": src, "tgt": tgt, "value": which, "via": via}
+                        vs, label = eval_range_edge(case)
+                        p.ev(label in ("fits", "outside"))
+                        p.states += 1
+                        p.outcome("range_edge:" + label)
+                        p.extend(vs)
+        for dtype in DTYPES:
+            for values in ([1, 2, 3, 4], [20000, 20000, 3, 1], [0, 0, 0, 0]):
+                if dtype == "float16" and max(values) > 2000:
+                    continue  # sums beyond float16's integer precision: the user's choice of type
+                case = {"accumulate": True, "dtype": dtype, "values": values}
+                vs = eval_accumulate(case)
+                p.ev(True)
+                p.states += 1
+                p.outcome("accumulate")
+                p.extend(vs)
+        p.sample(case)
     elif unit["kind"] == "class_construct":
         for dim in (1, 2):
             for fk in CTOR_VALUES:
@@ -683,6 +780,10 @@ def run_unit(unit, ctx):
 
 
 def replay(case):
+    if case.get("range_edge"):
+        return eval_range_edge(case)[0]
+    if case.get("accumulate"):
+        return eval_accumulate(case)
     if case.get("ctor"):
         return eval_class_construct(case)[0]
     if "fn" in case:
